@@ -29,7 +29,7 @@ import (
 )
 
 var st = stat.New("C15",
-	"Case = 2..4 scripted servers behind a registry-backed proxy, 4..40 steps from {call x1..8, advance clock by 1|2|3|6|8|25|31|40|61|90 s, status check, flip a server between ok and failing}. Model per endpoint: failures/successes since (re)instatement, consecutive failures, model time since last success / since the failure streak began / since the last probe, observed rotation membership. Assertions (threshold assertions only when the model time is >= 2 s away from the threshold): an endpoint leaves rotation only with >= 2 failures since it was (re)instated (never with 0); >= 5 consecutive failures over >= 5 s with another endpoint active => out of rotation after the next status check; an endpoint that is out of rotation receives calls only as probes: never without a status check since it left rotation / since the previous probe, and two probes only if >= 30 s can lie between the status checks that scheduled them; a successful probe puts it back (it is listed again and receives traffic within 4N calls), a failed probe leaves it out; with every endpoint out of rotation calls are still attempted on some endpoint. Non-trivial = history with block -> >= 30 s -> probe -> reinstatement, or all endpoints blocked. Distinct = distinct case JSON.",
+	"Case = 2..4 scripted servers (unweighted or all statically weighted) behind a registry-backed proxy, 4..40 steps from {call x1..8, advance clock by 1|2|3|6|8|25|31|40|61|90 s, status check, flip a server between ok and failing}. Model per endpoint: failures/successes since (re)instatement, consecutive failures, model time since last success / since the failure streak began / since the last probe, observed rotation membership. Assertions (threshold assertions only when the model time is >= 2 s away from the threshold): an endpoint leaves rotation only with >= 2 failures since it was (re)instated (never with 0); >= 5 consecutive failures over >= 5 s with another endpoint active => out of rotation after the next status check; an endpoint that is out of rotation receives calls only as probes: never without a status check since it left rotation / since the previous probe, and two probes only if >= 30 s can lie between the status checks that scheduled them; a successful probe puts it back (it is listed again, and an in-rotation endpoint whose server answers receives ordinary traffic within two full cycles, also with static weights), a failed probe leaves it out; with every endpoint out of rotation calls are still attempted on some endpoint. Non-trivial = history with block -> >= 30 s -> probe -> reinstatement, or all endpoints blocked. Distinct = distinct case JSON.",
 	"clock advances shift the adapters' timestamps through an overlay accessor; real elapsed time (< 3 s per case) is added to the model with second granularity margins",
 	"the process-wide background status and refresh tickers are disabled (intervals of ~11 days set before the first proxy is created) so that status checks happen only where the history says")
 
@@ -43,12 +43,20 @@ type Step struct {
 }
 
 type Case struct {
-	NServers int    `json:"n_servers"`
-	Steps    []Step `json:"steps"`
+	// Weights: nil = the registry publishes unweighted endpoints; otherwise every endpoint
+	// carries a static weight (weight type 1)
+	Weights  []int32 `json:"weights,omitempty"`
+	NServers int     `json:"n_servers"`
+	Steps    []Step  `json:"steps"`
 }
 
 func draw(rt *rapid.T) Case {
 	c := Case{NServers: rapid.IntRange(2, 4).Draw(rt, "nservers")}
+	if rapid.IntRange(0, 2).Draw(rt, "weighted") == 0 {
+		for i := 0; i < c.NServers; i++ {
+			c.Weights = append(c.Weights, int32(rapid.SampledFrom([]int{1, 2, 5, 10, 30, 100}).Draw(rt, "weight")))
+		}
+	}
 	if rapid.IntRange(0, 2).Draw(rt, "template") > 0 {
 		// failover-cycle template (constructed, not hoped for): one endpoint starts failing,
 		// collects >= 5 failures, time passes, status check (=> out of rotation), optionally
@@ -95,6 +103,9 @@ func draw(rt *rapid.T) Case {
 		add(Step{Op: "advance", Secs: rapid.SampledFrom([]int{31, 61, 90}).Draw(rt, "a3")})
 		add(Step{Op: "check"})
 		add(Step{Op: "call", N: rapid.IntRange(1, 2*c.NServers).Draw(rt, "after")})
+		if rapid.Bool().Draw(rt, "traffic") {
+			add(Step{Op: "traffic"})
+		}
 		if rapid.Bool().Draw(rt, "secondRound") {
 			add(Step{Op: "advance", Secs: rapid.SampledFrom([]int{31, 61}).Draw(rt, "a4")})
 			add(Step{Op: "check"})
@@ -185,7 +196,11 @@ func run(c Case) *stat.Failure {
 	reg := &fakeRegistry{}
 	for i := 0; i < c.NServers; i++ {
 		atomic.StoreInt32(&modes[i], 0)
-		reg.eps = append(reg.eps, endpointf.EndpointF{Host: servers[i].Host, Port: int32(servers[i].Port), Timeout: 3000, Istcp: 1, WeightType: 0, Weight: 100})
+		ef := endpointf.EndpointF{Host: servers[i].Host, Port: int32(servers[i].Port), Timeout: 3000, Istcp: 1, WeightType: 0, Weight: 100}
+		if c.Weights != nil {
+			ef.WeightType, ef.Weight = 1, c.Weights[i]
+		}
+		reg.eps = append(reg.eps, ef)
 	}
 	comm := tars.NewCommunicator(tars.Registrar(reg))
 	sp := tars.NewServantProxy(comm, fmt.Sprintf("Verif.C15.Obj%d", atomic.AddInt64(&objSeq, 1)))
@@ -300,6 +315,46 @@ func run(c Case) *stat.Failure {
 					return stat.Failf("failing-endpoint-stays", "%s: endpoint %d failed %d calls in a row over %.0f s (no success for %.0f s), another endpoint is active, yet it is still in rotation after a status check", where, i, m[i].cf, m[i].streakAge, m[i].sinceSucc)
 				}
 			}
+		case "traffic":
+			// "returns to rotation": an endpoint that is in rotation and answers must receive
+			// ordinary traffic. Issue two full cycles of calls (a weighted cycle has at most
+			// 100 slots per endpoint) and require every in-rotation, healthy endpoint to be hit.
+			n := 4 * c.NServers
+			if c.Weights != nil {
+				n = 2 * cycleLen(c.Weights)
+			}
+			hit := map[int]int{}
+			allOK := true
+			for i := range m {
+				if atomic.LoadInt32(&modes[i]) != 0 {
+					allOK = false // failing servers make calls slow and change membership: skip
+				}
+			}
+			if !allOK || n > 700 {
+				break
+			}
+			before := map[int]bool{}
+			for _, h := range sp.VerifActiveHosts() {
+				before[hostIdx[h]] = true
+			}
+			for k := 0; k < n; k++ {
+				srv, ok, _ := oneCall()
+				if srv >= 0 && ok {
+					hit[srv]++
+					m[srv].s++
+					m[srv].cf = 0
+					m[srv].sinceSucc = 0
+				}
+			}
+			tick()
+			if f := observe(where); f != nil {
+				return f
+			}
+			for i := range m {
+				if before[i] && !m[i].out && hit[i] == 0 {
+					return stat.Failf("in-rotation-endpoint-gets-no-traffic", "%s: endpoint %d is listed in rotation and its server answers, but none of %d ordinary calls reached it (hits per endpoint %v, weights %v)", where, i, n, hit, c.Weights)
+				}
+			}
 		case "call":
 			for k := 0; k < stp.N; k++ {
 				tick()
@@ -402,8 +457,41 @@ func TestC15(t *testing.T) {
 				adv30++
 			}
 		}
-		st.CaseJSON(c, flips >= 1 && adv30 >= 1, fmt.Sprintf("servers-%d", c.NServers))
+		wcls := "unweighted"
+		if c.Weights != nil {
+			wcls = "static-weights"
+		}
+		st.CaseJSON(c, flips >= 1 && adv30 >= 1, fmt.Sprintf("servers-%d", c.NServers), wcls)
 		st.Class("steps", int64(len(c.Steps)))
 		return run(c)
 	})
+}
+
+// cycleLen: length of one weighted round-robin cycle per the documented formula.
+func cycleLen(w []int32) int {
+	mn, mx := w[0], w[0]
+	for _, x := range w {
+		if x < mn {
+			mn = x
+		}
+		if x > mx {
+			mx = x
+		}
+	}
+	r := int(mx / mn)
+	if r < 10 {
+		r = 10
+	}
+	if r > 100 {
+		r = 100
+	}
+	total := 0
+	for _, x := range w {
+		c := int(x) * r / int(mx)
+		if c < 1 {
+			c = 1
+		}
+		total += c
+	}
+	return total
 }
